@@ -22,10 +22,12 @@ Record flags := {
   fixed_P47 : bool;         (* untrack leaves a link whose object is not in the cache as it is instead of panicking *)
   fixed_P3 : bool;          (* copy / move put the content at the cache address of the destination (another extension =
                                another address) and stop before any record changes when it is not in the cache *)
-  core : fixes              (* the repairs in track / carry-in (Repo/Fix.v: P44 / P42, P41, P49) *)
+  core : fixes;             (* the repairs in track / carry-in (Repo/Fix.v: P44 / P42, P41, P49) *)
+  fixed_P50 : bool          (* XvcCachePath::remove sets the directory of the deleted cache file read-only again when other
+                               cache files (the same content under another extension) stay in it *)
 }.
-Definition as_is : flags := {| fixed_P7 := false; fixed_P8 := false; fixed_mv_absent := false; fixed_P45 := false; fixed_P47 := false; fixed_P3 := false; core := Fix.as_is |}.
-Definition all_fixed : flags := {| fixed_P7 := true; fixed_P8 := true; fixed_mv_absent := true; fixed_P45 := true; fixed_P47 := true; fixed_P3 := true; core := Fix.all_fixed |}.
+Definition as_is : flags := {| fixed_P7 := false; fixed_P8 := false; fixed_mv_absent := false; fixed_P45 := false; fixed_P47 := false; fixed_P3 := false; core := Fix.as_is; fixed_P50 := false |}.
+Definition all_fixed : flags := {| fixed_P7 := true; fixed_P8 := true; fixed_mv_absent := true; fixed_P45 := true; fixed_P47 := true; fixed_P3 := true; core := Fix.all_fixed; fixed_P50 := true |}.
 
 Record xrepo := { base : repo; dirs : list path }.
 Definition xinit (a : algo) (m : method) (t : tob) : xrepo := {| base := init_repo a m t; dirs := [] |}.
@@ -382,17 +384,21 @@ Definition chmod_w_through (f : fsys) (e : entry) : fsys :=
   | Some i => match iget f i with Some n => iput f i (mk_inode (i_bytes n) true (i_mt n)) | None => f end
   | None => f
   end.
-Definition cache_remove (f : fsys) (a : caddr) : fsys :=
+(* the repair of P50: after the file is deleted, a directory that still holds cache files is set read-only again
+   (parent.read_dir()?.next().is_some() => set_readonly(true)); [p50] = the switch fixed_P50 *)
+Definition reseal (p50 : bool) (f : fsys) (d : digest) : fsys :=
+  if p50 && digest_dir_used f d then dput f d false else f.
+Definition cache_remove (p50 : bool) (f : fsys) (a : caddr) : fsys :=
   if obj_exists f a then
     let f1 := dput f (a_digest a) true in
     let f2 := match oget f1 a with Some e => chmod_w_through f1 e | None => f1 end in
-    prune (odel f2 a) (a_digest a)
+    prune (reseal p50 (odel f2 a) (a_digest a)) (a_digest a)
   else prune f (a_digest a).
 
 Definition version_matches (v_any : bool) (ds : list digest) (a : caddr) : bool :=
   v_any || existsb (digest_eqb (a_digest a)) ds.
 
-Definition remove_cmd (o : remove_opts) (targets : list bytes) (r : xrepo) : xrepo * outcome :=
+Definition remove_cmd (fl : flags) (o : remove_opts) (targets : list bytes) (r : xrepo) : xrepo * outcome :=
   let all := recs (base r) in
   let tg := select r targets in
   let cands : option (list caddr) :=
@@ -409,7 +415,7 @@ Definition remove_cmd (o : remove_opts) (targets : list bytes) (r : xrepo) : xre
   | None => (r, Err)                                       (* "Version prefix is not unique" *)
   | Some l =>
       let del := filter (fun a => rm_force o || deletable all tg a) l in
-      (set_xfs r (fold_left cache_remove del (xfs r)), Ok)
+      (set_xfs r (fold_left (cache_remove (fixed_P50 fl)) del (xfs r)), Ok)
   end.
 
 (* ---- untrack --------------------------------------------------------------------------------------------- *)
@@ -465,7 +471,7 @@ Definition untrack_cmd (fl : flags) (targets : list bytes) (r : xrepo) : xrepo *
         let del := filter (deletable all tg) (flat_map (fun ex => addrs_of (snd ex)) tg) in
         let b1 := set_recs (set_fs (base r) f1) (filter (fun ex => negb (is_target tg (fst ex))) all) in
         let r1 := {| base := b1; dirs := filter (fun q => negb (mem q tdirs)) (dirs r) |} in
-        (set_xfs r1 (fold_left cache_remove del (xfs r1)), Ok)
+        (set_xfs r1 (fold_left (cache_remove (fixed_P50 fl)) del (xfs r1)), Ok)
     | _ => (set_xfs r f1, Panic)
     end.
 
@@ -482,7 +488,7 @@ Definition do_xitem (fl : flags) (r : xrepo) (it : xitem) : xrepo * outcome :=
   | XBase i => let '(b, oc) := do_item_x (core fl) (base r) i in (set_base r b, oc)
   | XCopy o s d => copy_cmd3 fl o s d r
   | XMove o s d => move_cmd45 fl o s d r
-  | XRemove o ts => remove_cmd o ts r
+  | XRemove o ts => remove_cmd fl o ts r
   | XUntrack ts => untrack_cmd fl ts r
   end.
 Definition run_xitems (fl : flags) (r : xrepo) (h : list xitem) : xrepo :=
